@@ -14,7 +14,7 @@ EXPLANATION = (
     "walk; equality, disjointness, and equality restricted to one context language per production). "
     "Structural rules check that Iri::new / IriRef::new / Namespace::new/get go through exactly these "
     "predicates and that the predicates return the matcher's verdict unchanged. "
-    "NOT decided: that resolution implements RFC 3986 §5.2 (oxiri's algorithm, trusted base).")
+    "(R9.7) panic audit of the resolution glue (resolve.rs, _wrapper.rs): every unwrap/assert is discharged by L9 + A9 or audited, except the one recorded as a known finding. NOT decided: that resolution implements RFC 3986 §5.2 (oxiri's algorithm, trusted base).")
 
 PREDICATES = {
     # function last segment -> (reference language name, human name)
@@ -367,5 +367,40 @@ def run(ck, facts, tier):
         else:
             ck.bad("R9.6", "R9.6@%s#not-a-forwarder" % what, "%s is expected to be exactly `self.as_base().resolve(rel)`; found %d branch(es), "
                    "%d resolve call(s)" % (what, len(real), len(fwd)), fn.loc)
+    # R9.7 panic audit of the resolution glue (resolve.rs, _wrapper.rs): "every accepted value can be used as a base or be
+    # resolved without panicking"
+    import panics
+    IRI_TABLE = {
+        "_wrapper::Iri::<T>::as_base#unwrap:unwrap:call:resolve::BaseIri::<T>::new": (1, "R9.5: re-parse of the validated string (L9 + A9)"),
+        "_wrapper::Iri::<T>::to_base#unwrap:unwrap:call:resolve::BaseIri::<T>::new": (1, "R9.5"),
+        "_wrapper::IriRef::<T>::as_base#unwrap:unwrap:call:resolve::BaseIriRef::<T>::new": (1, "R9.5"),
+        "_wrapper::IriRef::<T>::to_base#unwrap:unwrap:call:resolve::BaseIriRef::<T>::new": (1, "R9.5"),
+        "_wrapper::Iri::<T>::new_unchecked#unwrap:unwrap:call:_wrapper::Iri::<T>::new":
+            (1, "the debug-only re-validation inside new_unchecked: a documented contract of the *caller* (its call sites are audited where they occur)"),
+        "_wrapper::IriRef::<T>::new_unchecked#unwrap:unwrap:call:_wrapper::IriRef::<T>::new": (1, "as Iri::new_unchecked"),
+        "resolve::BaseIriRef::<T>::to_base_iri#panic-call:assert:oxiri::IriRef::<T>::is_absolute":
+            (1, "documented precondition of to_base_iri (`# Panics` if the base is not absolute)"),
+        "resolve::BaseIriRef::<T>::to_base_iri#unwrap:unwrap:call:std::convert::TryFrom::try_from":
+            (1, "after the assertion that the reference is absolute, the conversion to an absolute IRI cannot fail"),
+    }
+    glue = [f for f in facts.fns.values() if f.crate == "sophia_iri" and re.search(r"iri/src/(resolve|_wrapper)\.rs$", f.file)]
+    sites = []
+    for f in sorted(glue, key=lambda x: x.id):
+        sites += panics.sites_of(f)
+    panics.controls(ck, "R9.7")
+    panics.classify(facts, sites, IRI_TABLE)
+    for st in sites:
+        if st.kind == "validator-call":
+            # new_unchecked on the resolver's output / on re-wrapped values: an RFC 3987 IRI by A9 and L9 (validator = RFC)
+            ck.ok("R9.7", st.key, "value produced by the resolver or already validated: accepted by the validator since L9 holds (A9)", nontrivial=False)
+        elif st.status in ("auto", "audited"):
+            ck.ok("R9.7", st.key, st.reason)
+        elif re.search(r"Resolvable<T>>::output_(abs|rel)#unwrap:unwrap:param1$", st.key):
+            ck.bad("R9.7", "R9.7@" + st.key, "the typed resolve() unwraps the resolver's Result: resolution itself can fail for accepted operands "
+                   "(oxiri reports PathStartingWithTwoSlashes when the RFC 3986 algorithm would yield `scheme://...` from an authority-less "
+                   "base, e.g. base `a:/b`, reference `.//c`), so a validated base and a validated reference can panic", st.loc)
+        else:
+            ck.bad("R9.7", "R9.7@" + st.key, "panic site in the resolution glue is neither guarded nor audited: %s %s (%s)" % (st.kind, st.what, st.detail), st.loc)
+    ck.floor("R9.7", "functions of the resolution glue", len(glue), 30)
     ck.floor("L9", "IRI predicates with a decided language", len(langs), 3)
     ck.floor("L9", "context-restricted obligations", len(ctxs), 20)
